@@ -201,7 +201,8 @@ const OPEN_SHAPES: &[&str] = &[
     // a jq keyword key printed in dot notation: unparseable (`.and`, `.then.x`) or parsed
     // as an operator (`.and[1]` = `. and [1]`)
     "C28/locate-expr/dot-notation-for-keyword-key",
-    // `]` `.` non-ASCII identifier: jq::parse panics slicing inside the character
+    // `]` `.` non-ASCII identifier: jq::parse panicked slicing inside the character
+    // (fixed in /repo by 0b4d05d; the shape keeps its own signature as a regression guard)
     "C28/locate-expr/parser-panic/non-ascii-dot-key-after-bracket",
 ];
 
